@@ -16,6 +16,10 @@ the same lines from the real crate (`gimli::write::Dwarf` → `Sections`) is
   `x<hex>` raw | `z<n>.<hexbyte>` raw, n copies | `o<n>` operand-less opcode | `a<addr>` | `u<n>` constu |
   `c<i>` op_call | `v`/`v<i>` op_convert | `r<i>` op_call_ref
 * reply: `ok rid=… lid=… roff=… loff=… ranges=<hex> rnglists=<hex> loc=<hex> loclists=<hex>`
+
+`wl-unit2 <mode> <unit A: cfg lowpc eoffs rlists llists> <offset of unit B in .debug_info> <unit B: …>`:
+two units in one `write::Dwarf` (same byte order); reply `ok A:rid=… … B:rid=… … ranges=… …`
+(the sections hold both units' tables).
 -/
 namespace Gimli.Drv.C16
 open Gimli Gimli.Drv Gimli.WLists
@@ -93,25 +97,49 @@ def natsS (l : List Nat) : String :=
 
 /-- the offsets are observed by parsing the written unit; the reader only accepts the address
 sizes 1, 2, 4, 8 — for any other size the Rust side prints `?` -/
-def outS (asz : Nat) (o : UnitOut) : String :=
-  let readable := asz = 1 ∨ asz = 2 ∨ asz = 4 ∨ asz = 8
+def readable (asz : Nat) : Bool := asz = 1 ∨ asz = 2 ∨ asz = 4 ∨ asz = 8
+
+def idsS (readable : Bool) (o : UnitOut) : String :=
   let roff := if readable then natsS o.rngOffs else "?"
   let loff := if readable then natsS o.locOffs else "?"
-  s!"rid={natsS o.rngIds} lid={natsS o.locIds} roff={roff} loff={loff} " ++
-  s!"ranges={toHex o.debugRanges} rnglists={toHex o.debugRnglists} loc={toHex o.debugLoc} loclists={toHex o.debugLoclists}"
+  s!"rid={natsS o.rngIds} lid={natsS o.locIds} roff={roff} loff={loff}"
+
+def secsS (r rl l ll : Bytes) : String :=
+  s!"ranges={toHex r} rnglists={toHex rl} loc={toHex l} loclists={toHex ll}"
+
+def outS (asz : Nat) (o : UnitOut) : String :=
+  idsS (readable asz) o ++ " " ++ secsS o.debugRanges o.debugRnglists o.debugLoc o.debugLoclists
+
+def unit? (c low eoffs rl ll : String) : Option UnitIn := do
+  let c ← C08.cfg? c
+  if c.addrSize ≥ 256 ∨ c.version ≥ 65536 then none
+  let low ← if low == "-" then some none else (addr? low).map some
+  let eoffs ← nats? eoffs
+  let rl ← lists? eoffs.length rl
+  let ll ← lists? eoffs.length ll
+  if ¬ (∀ l ∈ rl, ∀ x ∈ l, EntryOfKind .rng x) then none
+  pure { cfg := c, lowPc := low, eoff := eoffs, rng := rl, loc := ll }
 
 def handle (op : String) (args : List String) : Option String :=
   match op, args with
   | "wl-unit", [m, c, low, eoffs, rl, ll] => do
-      let m ← mode? m; let c ← C08.cfg? c
-      if c.addrSize ≥ 256 ∨ c.version ≥ 65536 then none
-      let low ← if low == "-" then some none else (addr? low).map some
-      let eoffs ← nats? eoffs
-      let rl ← lists? eoffs.length rl
-      let ll ← lists? eoffs.length ll
-      if ¬ (∀ l ∈ rl, ∀ x ∈ l, EntryOfKind .rng x) then none
-      let u : UnitIn := { cfg := c, lowPc := low, eoff := eoffs, rng := rl, loc := ll }
-      pure ((writeUnit m u).render (outS c.addrSize))
+      let m ← mode? m
+      let u ← unit? c low eoffs rl ll
+      pure ((writeUnit m u).render (outS u.cfg.addrSize))
+  /- two units written one after the other into the same `Sections`; `uoffb` = offset of the second
+  unit in `.debug_info` -/
+  | "wl-unit2", [m, ca, lowa, eoa, rla, lla, uoffb, cb, lowb, eob, rlb, llb] => do
+      let m ← mode? m
+      let a ← unit? ca lowa eoa rla lla
+      let b ← unit? cb lowb eob rlb llb
+      let uoffb ← u64? uoffb
+      if a.cfg.endian ≠ b.cfg.endian then none
+      -- the Rust side parses the whole `.debug_info`: both units must be readable
+      let rd := readable a.cfg.addrSize && readable b.cfg.addrSize
+      pure ((writeUnits2 m a b uoffb).render fun (oa, ob) =>
+        s!"A:{idsS rd oa} B:{idsS rd ob} " ++
+        secsS (oa.debugRanges ++ ob.debugRanges) (oa.debugRnglists ++ ob.debugRnglists)
+          (oa.debugLoc ++ ob.debugLoc) (oa.debugLoclists ++ ob.debugLoclists))
   | _, _ => none
 
 end Gimli.Drv.C16
